@@ -13,7 +13,7 @@ import (
 func init() {
 	register(&Property{
 		ID:    "C09",
-		Title: "Binding context JSON follows the documented contract, incl. filterResult",
+		Title: "Binding context JSON follows the documented contract, incl. filterResult (R7) the renderers dereference the stripped Object only under a presence test or for a config version that always keeps objects; (R8) every link-registry entry is its own object.",
 		Explanation: "Decided on MapV1/MapV0, ObjectAndFilterResult.Map, the binding-context producers and Hook.Run: (R1) when the stored " +
 			"FilterResult is not a JSON string the rendered filterResult is the stored value itself (the value every real writer produces " +
 			"is not discarded by a failed type assertion); (R2) per return of MapV1/MapV0/ObjectAndFilterResult.Map the set of keys that " +
